@@ -403,7 +403,9 @@ Step(S, e) ==
 
     [] e.e = "Closed" -> [S |-> S, bad |-> {}]
     [] e.e = "Hang"   -> [S |-> S, bad |-> {"C03.term"} \cup (IF S.ncall >= 2 THEN {"C08.fresh.hang"} ELSE {})]
-    [] e.e = "Swallowed" -> [S |-> S, bad |-> {}]       \* a context manager swallowed an exception (harness marker)
+    \* an asynq context's __exit__ returned a true value: the with-block swallowed the exception (or the result() signal)
+    \* that was leaving it - sequential evaluation of the same code would have let it pass
+    [] e.e = "Swallowed" -> [S |-> S, bad |-> {"C01.swallow"}]
     [] OTHER -> [S |-> S, bad |-> {"H.unknown_event"}]
 
 ClauseProperty(c) == SubSeq(c, 1, 3)
